@@ -23,16 +23,16 @@ def install_cache_hook(I, ctx, log):
     for ty in ('GlobalCache', 'ThreadLocalCache', 'AsyncGlobalCache'):
         for m in CACHE_METHODS:
             for f in I.p.methods.get((ty, m), []): targets[f.name] = (ty, m)
-    depth = {'d': 0}
+    depth = {}
     def hooked(ctx_, f, a):
-        tm = targets.get(f.name)
-        if tm is None or depth['d'] > 0:
+        tm = targets.get(f.name); me = ctx_.tid
+        if tm is None or depth.get(me, 0) > 0:
             r = yield from orig(ctx_, f, a); return r
-        depth['d'] += 1
+        depth[me] = depth.get(me, 0) + 1
         try:
             r = yield from orig(ctx_, f, a)
         finally:
-            depth['d'] -= 1
+            depth[me] -= 1
         log.append(dict(ty=tm[0], method=tm[1], cache=deref_all(a[0]), key=deref_all(a[1]), value=(deref_all(a[2]) if len(a) > 2 else None), ret=r, tid=ctx_.tid))
         return r
     I.call_fn = hooked
@@ -56,6 +56,16 @@ def cache_parts(P, cacheobj, ty, tid):
     cfg = dict(limit=optval(f['limit']), max_memory=optval(f['max_memory']), ttl=optval(f['ttl']), frequency_weight=optval(f['frequency_weight']),
                policy=POLICIES[f['policy'].variant] if isinstance(f['policy'].variant, int) else str(f['policy'].variant))
     return store, queue, cfg
+
+
+def cache_stats(P, cacheobj, ty):
+    """(hits term, misses term) of the statistics object a cache object points to"""
+    from .engine import LazyM
+    names = struct_fields(P, ty); f = dict(zip(names, cacheobj.fields))
+    x = deref_all(f['stats'])
+    if isinstance(x, LazyM): x = x.inner.v
+    sf = struct_fields(P, 'CacheStats')
+    return x.fields[sf.index('hits')].fields[0], x.fields[sf.index('misses')].fields[0]
 
 
 def arg_tuple(ctx, name, arity):
